@@ -182,6 +182,16 @@ def doWatch (c : Cfg) (s : BState) (id : Nat) (pfx : Bytes) (rev : Nat) : Bool Ã
 
 def widOf (s : String) : Nat := (s.toList.filter Char.isDigit |> String.ofList).toNat?.getD 0
 
+def pad5 (i : Nat) : Bytes :=
+  [48 + i / 10000 % 10, 48 + i / 1000 % 10, 48 + i / 100 % 10, 48 + i / 10 % 10, 48 + i % 10]
+
+def fillLoop (c : Cfg) (pfx val : Bytes) : Nat â†’ Nat â†’ BState â†’ Option BState
+  | 0, _, b => some b
+  | n + 1, i, b =>
+    match doCreate c b (pfx ++ pad5 i) val [] with
+    | (.ok _, b') => fillLoop c pfx val n (i + 1) b'
+    | _ => none
+
 def stepBackend (st : SuiteState) (toks : List String) : SuiteState Ã— String :=
   let c := st.cfg
   let (pos, opts) := parseOpts toks
@@ -231,6 +241,10 @@ def stepBackend (st : SuiteState) (toks : List String) : SuiteState Ã— String :=
     | .error e => (st, s!"stream err {errStr e}")
     | .panic => (st, "stream PANIC")
   | "echo" :: _ => (st, " ".intercalate toks)
+  | ["fill", n, p, v] =>
+    match fillLoop c (unhx p) (unhx v) (atou n) 0 st.b with
+    | some b => ({ st with b := b }, s!"fill {b.dealt}")
+    | none => (st, "fill failed")
   | ["arm", g] => (st, s!"arm {g}")
   | ["disarm", g] => (st, s!"disarm {g}")
   | ["await", "retry.step"] => (st, s!"await retry.step {if st.b.retryQ.isEmpty then 0 else 1}")
